@@ -17,6 +17,7 @@
 EXTENDS QualRepoImplOps
 
 CONSTANTS NsArgs,     \* namespace arguments of the qualifier operations (0=None)
+          CompileNs,  \* namespace arguments of compile_mof_string (slow call)
           NsAdm,      \* namespaces given to add_namespace / remove_namespace
           QU,         \* qualifier name ids
           DU,         \* declaration content tokens
@@ -58,8 +59,11 @@ Calls ==
   \cup {Call("Enum", ns, 0, "", "ok", <<>>, "", <<>>) : ns \in NsArgs}
   \cup {Call("AddObj", ns, 0, "", "ok", it, "", <<>>) :
           ns \in NsArgs, it \in ItemLists(MaxItems)}
+  \cup {Call("AddObj", ns, 0, "", a, it, "", <<>>) :
+          ns \in NsArgs, a \in BadArgs \cap {"badtype"},
+          it \in ItemLists(1) \cup {<<>>}}
   \cup {Call("Compile", ns, 0, "", "ok", it, "", <<>>) :
-          ns \in NsArgs, it \in ItemLists(MaxCompile)}
+          ns \in CompileNs, it \in ItemLists(MaxCompile)}
   \cup {Call(op, ns, 0, "", "ok", <<>>, "", <<>>) :
           op \in {"AddNs", "RemoveNs"}, ns \in NsAdm}
   \cup {Call("CreateClass", ns, 0, "", "ok", <<>>, c, u) :
